@@ -1532,3 +1532,514 @@ Proof.
     destruct (IH st1 Inv1) as (st2 & os & E2 & Inv2 & M2 & L2); [rewrite M1; exact Ht|].
     rewrite E2. cbn [obind]. exists st2, (o :: os). splits; auto; [congruence | cbn; lia].
 Qed.
+
+(* ================================================================== property-level statements *)
+
+(* ---- C10 *)
+
+(* what property C10 asks of a multicast control packet, in the vocabulary of the ingress
+   development: [own] = an address configured on the interface *)
+Definition c10_pkt_legal (st : mstate) (p : mpkt) : Prop :=
+  pk_hop p = 1 /\ ip_is_multicast (pk_dst p) = true /\
+  match pk_kind p with
+  | KIgmpReport _ g =>
+      pk_dst p = V4 g /\ pk_ra p = false /\
+      exists a, pk_src p = V4 a /\ ing_igmp_report_src (mc_iface st) = Some a /\ own (mc_iface st) (V4 a)
+  | KIgmpLeave _ =>
+      pk_dst p = V4 v4_MULTICAST_ALL_ROUTERS /\ pk_ra p = false /\
+      exists a, pk_src p = V4 a /\ ing_igmp_report_src (mc_iface st) = Some a /\ own (mc_iface st) (V4 a)
+  | KMldReport _ =>
+      pk_dst p = V6 v6_LINK_LOCAL_ALL_MLDV2_ROUTERS /\ pk_ra p = true /\
+      exists s, pk_src p = V6 s /\ s = ing_mld_report_src (mc_iface st) /\
+        ((own (mc_iface st) (V6 s) /\ v6_is_link_local s = true) \/
+         (s = 0 /\ first_link_local (mc_addrs st) = None))
+  end.
+
+Lemma pkt_ok_c10 st p : tbl_inv (mc_groups st) -> pkt_ok st p -> c10_pkt_legal st p.
+Proof.
+  intros Hi ((Hh & Hk) & Hg). unfold c10_pkt_legal. split; [exact Hh|].
+  destruct (c10_multicast_report_src (mc_iface st)) as (C6 & C4).
+  unfold pkt_groups_ok in Hg. destruct (pk_kind p) as [v g | g | recs].
+  - destruct Hk as (Hd & Hr & (a & Hs & Ha)). split.
+    + rewrite Hd. apply (has_group_is_multicast st (V4 g) Hi Hg).
+    + split; [exact Hd|]. split; [exact Hr|]. exists a. split; [exact Hs|]. split; [exact Ha | apply C4; exact Ha].
+  - destruct Hk as (Hd & Hr & (a & Hs & Ha)). split.
+    + rewrite Hd. apply all_routers_multicast.
+    + split; [exact Hd|]. split; [exact Hr|]. exists a. split; [exact Hs|]. split; [exact Ha | apply C4; exact Ha].
+  - destruct Hk as (Hd & Hr & Hs). split.
+    + rewrite Hd. apply mld_routers_multicast.
+    + split; [exact Hd|]. split; [exact Hr|]. eexists. split; [exact Hs|]. split; [reflexivity | exact C6].
+Qed.
+
+Theorem c10mc_egress_packets_legal st dev now st' dev' pkts :
+  mc_inv st -> mc_multicast_egress st dev now = Ok (st', dev', pkts) -> Forall (c10_pkt_legal st) pkts.
+Proof.
+  intros Inv E. destruct (egress_spec st dev now Inv) as (st2 & d2 & p2 & E2 & _ & _ & _ & F & _).
+  rewrite E in E2. inv E2. eapply Forall_impl; [|exact F]. intros p. apply pkt_ok_c10. apply Inv.
+Qed.
+
+(* with every configured address unicast (Model/Ingress.v's wf_iface) the source is a unicast
+   address of the interface - never broadcast or multicast - except the unspecified address of an
+   MLD report sent while the interface has no link-local address *)
+Theorem c10mc_source_unicast_or_required_unspec st p :
+  Forall (fun c => ip_is_unicast (c_addr c) = true) (mc_addrs st) -> c10_pkt_legal st p ->
+  (own (mc_iface st) (pk_src p) /\ ip_is_unicast (pk_src p) = true) \/
+  (exists recs, pk_kind p = KMldReport recs) /\ pk_src p = V6 0 /\ first_link_local (mc_addrs st) = None.
+Proof.
+  intros Hu (_ & _ & Hk).
+  assert (U : forall x, own (mc_iface st) x -> ip_is_unicast x = true).
+  { intros x (c & Hin & <-). rewrite Forall_forall in Hu. apply Hu. exact Hin. }
+  destruct (pk_kind p) as [v g | g | recs].
+  - destruct Hk as (_ & _ & (a & -> & _ & Ho)). left. auto.
+  - destruct Hk as (_ & _ & (a & -> & _ & Ho)). left. auto.
+  - destruct Hk as (_ & _ & (s & -> & _ & [(Ho & _) | (-> & Hn)])); [left; auto | right; eauto].
+Qed.
+
+(* the same over whole histories: every poll observation of every run from Interface::new *)
+Fixpoint run_polls_legal (st : mstate) (evs : list mc_event) : Prop :=
+  match evs with
+  | [] => True
+  | e :: t =>
+      match mc_step st e with
+      | Ok (st', o) => (match o with OPkts l => Forall (c10_pkt_legal st) l | _ => True end) /\ run_polls_legal st' t
+      | _ => True
+      end
+  end.
+
+Theorem c10mc_run_packets_legal evs : forall st, mc_inv st -> Forall (ev_ok (mc_medium st)) evs ->
+  run_polls_legal st evs.
+Proof.
+  induction evs as [|e t IH]; intros st Inv Hev; cbn [run_polls_legal]; [exact I|].
+  inversion Hev as [|? ? He Ht]; subst.
+  destruct (step_ok st e Inv He) as (st1 & o & E & Inv1 & M1). rewrite E. split.
+  - destruct o as [r | | l]; try exact I. destruct e; cbn [mc_step] in E;
+      try (destruct (mc_join st g); discriminate); try (destruct (mc_leave st g); discriminate);
+      try (destruct (mc_addr_add st c); discriminate); try (destruct (mc_addr_remove st c); discriminate);
+      try discriminate.
+    destruct (mc_multicast_egress st dev now) as [[[s2 d2] p2]| |] eqn:EE; cbn [obind] in E; try discriminate.
+    inv E. eapply c10mc_egress_packets_legal; eassumption.
+  - apply IH; [exact Inv1 | rewrite M1; exact Ht].
+Qed.
+
+(* ---- C11 *)
+
+Lemma mc_get_count g l s : mc_get g l = Some s -> (1 <= count_state s l)%nat.
+Proof.
+  induction l as [|[k s0] t IH]; cbn; [discriminate|].
+  destruct (ip_eqb k g).
+  - intros H. inv H. assert (gstate_eqb s s = true) by (apply gstate_eqb_eq; reflexivity). rewrite H. lia.
+  - intros H. specialize (IH H). destruct (gstate_eqb s0 s); lia.
+Qed.
+
+(* membership is not changed by a pass of multicast_egress (Joining -> Joined both count as
+   member, a Leaving entry that is dropped did not) *)
+Theorem c11mc_egress_preserves_membership st dev now st' dev' pkts :
+  mc_inv st -> mc_multicast_egress st dev now = Ok (st', dev', pkts) ->
+  forall g, mc_has_multicast_group st' g = mc_has_multicast_group st g.
+Proof.
+  intros Inv E. destruct (egress_spec st dev now Inv) as (st2 & d2 & p2 & E2 & B & _ & S & _).
+  rewrite E in E2. inv E2. apply has_group_ext; [symmetry; apply B | exact S].
+Qed.
+
+(* leave takes effect at once, survives every later poll, and a poll on an accepting device
+   removes the entry from the table *)
+Theorem c11mc_leave_then_egress st g dev now st' dev' pkts :
+  mc_inv st -> ip_is_multicast g = true ->
+  let st1 := fst (mc_leave st g) in
+  snd (mc_leave st g) = mc_OK /\
+  mc_state_has (mc_groups st1) g = false /\
+  (mc_multicast_egress st1 dev now = Ok (st', dev', pkts) ->
+   mc_state_has (mc_groups st') g = false /\
+   (forallb (fun b => b) dev = true ->
+    (count_state GJoining (mc_groups st1) + count_state GLeaving (mc_groups st1) <= length dev)%nat ->
+    mc_get g (mc_groups st') = None)).
+Proof.
+  intros Inv M. cbv zeta. pose proof Inv as (Hi & Ha & Hc & Hk).
+  assert (L : mc_state_has (mc_groups (fst (mc_leave st g))) g = false) by (apply leave_not_member; assumption).
+  split; [rewrite leave_ret, M; reflexivity|]. split; [exact L|].
+  intros E.
+  assert (Inv1 : mc_inv (fst (mc_leave st g))).
+  { pose proof (leave_base st g) as ((B1 & B2 & B3 & B4) & I & _).
+    unfold mc_inv, cfg_ok. rewrite <- B1, <- B3, I. splits; auto. apply leave_tbl_inv. exact Hi. }
+  destruct (egress_spec _ dev now Inv1) as (st2 & d2 & p2 & E2 & _ & _ & S & _ & _ & _ & _ & _ & _ & Z & _).
+  rewrite E in E2. inv E2. split; [rewrite S; exact L|].
+  intros F Ld. destruct (Z F Ld) as (_ & Z2).
+  specialize (S g). rewrite L in S. unfold mc_state_has in S.
+  destruct (mc_get g (mc_groups st2)) as [s|] eqn:G; [|reflexivity].
+  destruct s; try discriminate. apply mc_get_count in G. lia.
+Qed.
+
+(* the table never exceeds its capacity (part of the invariant every event preserves) *)
+Theorem c11mc_table_bounded evs st st' obs : mc_inv st -> Forall (ev_ok (mc_medium st)) evs ->
+  mc_run st evs = Ok (st', obs) ->
+  Z.of_nat (length (mc_groups st')) <= cfg_IFACE_MAX_MULTICAST_GROUP_COUNT /\ NoDup (keys (mc_groups st')).
+Proof.
+  intros Inv Hev E. destruct (run_ok evs st Inv Hev) as (s2 & o2 & E2 & ((N & _ & L) & _) & _).
+  rewrite E in E2. inv E2. auto.
+Qed.
+
+(* every membership report names only groups the interface listens to at that moment; every
+   leave names a multicast group it does not keep as a member *)
+Theorem c11mc_reports_only_for_members st dev now st' dev' pkts :
+  mc_inv st -> mc_multicast_egress st dev now = Ok (st', dev', pkts) ->
+  Forall (pkt_groups_ok st) pkts /\ Forall (pkt_groups_ok st') pkts.
+Proof.
+  intros Inv E. destruct (egress_spec st dev now Inv) as (st2 & d2 & p2 & E2 & B & _ & S & F & _).
+  rewrite E in E2. inv E2. split.
+  - eapply Forall_impl; [|exact F]. intros p X. apply X.
+  - eapply Forall_impl; [|exact F]. intros p X.
+    eapply pkt_groups_ok_ext; [apply B | | apply X]. intros g. symmetry. apply S.
+Qed.
+
+(* ---- C03 *)
+
+Lemma count_join_leave_le l : (count_state GJoining l + count_state GLeaving l <= length l)%nat.
+Proof. induction l as [|[k []] t IH]; cbn; lia. Qed.
+
+(* one pass never panics, never runs out of loop fuel and hands the device at most
+   (table size + 2) <= capacity + 2 frames *)
+Theorem c03mc_egress_total_and_bounded st dev now : mc_inv st ->
+  exists st' dev' pkts, mc_multicast_egress st dev now = Ok (st', dev', pkts) /\ mc_inv st' /\
+    (Z.of_nat (length pkts) <= Z.of_nat (length (mc_groups st)) + 2 <= cfg_IFACE_MAX_MULTICAST_GROUP_COUNT + 2).
+Proof.
+  intros Inv. destruct (egress_spec st dev now Inv) as (st2 & d2 & p2 & E2 & _ & Inv2 & _ & _ & L & _).
+  exists st2, d2, p2. split; [exact E2|]. split; [exact Inv2|].
+  pose proof (count_join_leave_le (mc_groups st)). destruct Inv as ((_ & _ & C) & _). lia.
+Qed.
+
+(* the `while let` loops terminate: with fuel = number of entries still to do (or more) they
+   never report exhaustion *)
+Theorem c03mc_loops_terminate st dev acc fuel : mc_inv st ->
+  ((count_state GJoining (mc_groups st) <= fuel)%nat ->
+   exists r, mc_egress_joins fuel st dev acc = Ok r) /\
+  ((count_state GLeaving (mc_groups st) <= fuel)%nat ->
+   exists r, mc_egress_leaves fuel st dev acc = Ok r).
+Proof.
+  intros (Hi & _ & Hc & _). split; intros Hf.
+  - destruct (joins_spec fuel st dev acc Hi Hc Hf) as (s & d & n & E & _). eauto.
+  - destruct (leaves_spec fuel st dev acc Hi Hc Hf) as (s & d & n & E & _). eauto.
+Qed.
+
+(* a sequence of polls, at any times and with any device behaviour, sends at most
+   igmp_reports_left IGMP query responses (at most one per member group after a general query,
+   one after a specific query) and at most one MLD query response *)
+Definition is_poll (e : mc_event) : Prop := match e with EvPoll _ _ => True | _ => False end.
+Definition obs_pkts (o : mc_obs) : list mpkt := match o with OPkts l => l | _ => [] end.
+
+Theorem c03mc_query_responses_bounded evs : forall st st' obs, mc_inv st -> Forall is_poll evs ->
+  mc_run st evs = Ok (st', obs) ->
+  (length (filter is_igmp_response (flat_map obs_pkts obs)) + igmp_reports_left st' <= igmp_reports_left st)%nat /\
+  (length (filter is_mld_response (flat_map obs_pkts obs)) + mld_reports_left st' <= mld_reports_left st)%nat.
+Proof.
+  induction evs as [|e t IH]; intros st st' obs Inv Hp E; cbn [mc_run] in E.
+  - inv E. cbn. lia.
+  - inversion Hp as [|? ? He Ht]; subst. destruct e; try contradiction. cbn [mc_step] in E.
+    destruct (egress_spec st dev now Inv) as (s2 & d2 & p2 & E2 & _ & Inv2 & _ & _ & _ & _ & W4 & W6 & _).
+    rewrite E2 in E. cbn [obind] in E.
+    destruct (mc_run s2 t) as [[s3 os]| |] eqn:R; cbn [obind] in E; try discriminate. inv E.
+    destruct (IH s2 st' os Inv2 Ht R) as (I4 & I6).
+    cbn [flat_map obs_pkts]. rewrite !filter_app, !app_length. lia.
+Qed.
+
+Lemma igmp_reports_left_le_cap st : mc_inv st ->
+  Z.of_nat (igmp_reports_left st) <= Z.max 1 cfg_IFACE_MAX_MULTICAST_GROUP_COUNT.
+Proof.
+  intros ((_ & _ & C) & _). unfold igmp_reports_left. destruct (mc_igmp st); try lia.
+  pose proof (member4_le_length (mc_groups st)). lia.
+Qed.
+
+(* a due MLD response is given up in that very poll (sent or not) *)
+Theorem c03mc_mld_response_one_shot st dev now st' dev' pkts :
+  mc_inv st -> mc_multicast_egress st dev now = Ok (st', dev', pkts) ->
+  match mc_mld st with
+  | MlGeneral t | MlSpecific _ t => t <= now -> mc_mld st' = MlInactive
+  | MlInactive => mc_mld st' = MlInactive
+  end.
+Proof.
+  intros Inv E. destruct (egress_spec st dev now Inv) as (s2 & d2 & p2 & E2 & X).
+  rewrite E in E2. inv E2. apply X.
+Qed.
+
+(* ================================================================== a general query is answered completely and on time *)
+
+Lemma joins_none st dev acc fuel : mc_find_state GJoining (mc_groups st) = None ->
+  mc_egress_joins fuel st dev acc = Ok (st, dev, acc).
+Proof. intros F. destruct fuel; cbn [mc_egress_joins]; rewrite F; reflexivity. Qed.
+
+Lemma leaves_none st dev acc fuel : mc_find_state GLeaving (mc_groups st) = None ->
+  mc_egress_leaves fuel st dev acc = Ok (st, dev, acc).
+Proof. intros F. destruct fuel; cbn [mc_egress_leaves]; rewrite F; reflexivity. Qed.
+
+(* no join or leave pending *)
+Definition quiet (st : mstate) : Prop :=
+  count_state GJoining (mc_groups st) = O /\ count_state GLeaving (mc_groups st) = O.
+
+Lemma egress_quiet st dev now : quiet st ->
+  mc_multicast_egress st dev now =
+  (do '(st3, d3, a3) <- mc_egress_igmp st dev now []; mc_egress_mld st3 d3 now a3).
+Proof.
+  intros (Q1 & Q2). unfold mc_multicast_egress.
+  rewrite joins_none by (apply count_zero_find; exact Q1). cbn [obind].
+  rewrite leaves_none by (apply count_zero_find; exact Q2). cbn [obind]. reflexivity.
+Qed.
+
+Lemma member4_quiet l : count_state GLeaving l = O -> mc_v4_member_keys l = mc_v4_keys l.
+Proof.
+  induction l as [|[[a|a] s] t IH]; cbn; [reflexivity| |].
+  - destruct (gstate_eqb s GLeaving); [discriminate|]. intros H. rewrite (IH H). reflexivity.
+  - destruct (gstate_eqb s GLeaving); [discriminate | exact IH].
+Qed.
+
+Lemma nth_error_skipn {A} (l : list A) : forall i g, nth_error l i = Some g -> skipn i l = g :: skipn (S i) l.
+Proof.
+  induction l as [|x t IH]; intros [|i] g H; cbn in *; try discriminate.
+  - inv H. reflexivity.
+  - apply IH. exact H.
+Qed.
+
+Lemma v4_keys_multicast l a : tbl_inv l -> In a (mc_v4_keys l) -> v4_is_multicast a = true.
+Proof.
+  intros (_ & Hm & _) H. rewrite Forall_forall in Hm. apply (Hm (V4 a)).
+  induction l as [|[[b|b] s] t IH]; cbn in *; [contradiction| |].
+  - destruct H as [-> | H]; [left; reflexivity | right; apply IH; [|exact H]].
+    intros x Hx. apply Hm. right. exact Hx.
+  - right. apply IH; [|exact H]. intros x Hx. apply Hm. right. exact Hx.
+Qed.
+
+(* the report the response machine sends for group g *)
+Definition general_report (ver : igmp_version) (a g : Z) : mpkt :=
+  mkPkt (KIgmpReport ver g) (V4 a) (V4 g) 1 false CGeneral.
+
+Section GeneralQuery.
+Variable b : mstate.                       (* the interface when the query arrives *)
+Variable a : Z.
+Variable ver : igmp_version.
+Variable interval : Z.
+Hypothesis Hinv : tbl_inv (mc_groups b).
+Hypothesis Hquiet : quiet b.
+Hypothesis Haddr : first_v4 (mc_addrs b) = Some a.
+Hypothesis Hmed : mc_medium b <> M154.
+Hypothesis Hmtu : wipv4_HEADER_LEN + snd wigmp_f_GROUP_ADDRESS <= mc_ip_mtu b.
+Hypothesis Hmld : mc_mld b = MlInactive.
+Hypothesis Hint : 0 <= interval.
+
+Let keys4 := mc_v4_keys (mc_groups b).
+
+Lemma general_step T i g d : nth_error keys4 i = Some g ->
+  mc_multicast_egress (mc_set_igmp b (IgGeneral ver T interval (Z.of_nat i))) (true :: d) T =
+  Ok (mc_set_igmp b (IgGeneral ver (T + interval) interval (Z.of_nat (S i))), d, [general_report ver a g]).
+Proof.
+  intros N. rewrite egress_quiet by exact Hquiet.
+  unfold mc_egress_igmp. cbn [mc_igmp mc_set_igmp mc_groups].
+  assert (T >=? T = true) by lia. rewrite H. rewrite Nat2Z.id.
+  rewrite member4_quiet by apply Hquiet. fold keys4. rewrite N.
+  unfold mc_igmp_report_packet, ing_igmp_report_src, ing_ipv4_addr. cbn [mc_iface if_addrs mc_addrs mc_set_igmp].
+  rewrite Haddr. cbn [mc_transmit].
+  assert (Mg : v4_is_multicast g = true) by (apply (v4_keys_multicast (mc_groups b)); [exact Hinv | eapply nth_error_In; exact N]).
+  unfold mc_dispatch_unwrap, mc_dispatch_ip. cbn [pk_dst ip_is_unspecified ip_is_multicast ip_is_broadcast].
+  rewrite (v4_multicast_not_unspec g Mg), Mg. cbn [orb negb mc_medium mc_set_igmp].
+  assert (L : mc_pkt_ip_len (mkPkt (KIgmpReport ver g) (V4 a) (V4 g) 1 false CGeneral) <=? mc_ip_mtu b = true).
+  { unfold mc_pkt_ip_len. cbn [pk_kind]. apply Z.leb_le. exact Hmtu. }
+  destruct (mc_medium b) eqn:M; try contradiction; cbn [mc_ip_mtu mc_set_igmp]; rewrite L; cbn [obind app];
+    unfold mc_egress_mld; cbn [mc_mld mc_set_igmp]; rewrite Hmld;
+    replace (Z.max (T + interval) T) with (T + interval) by lia;
+    replace (Z.of_nat i + 1) with (Z.of_nat (S i)) by lia; reflexivity.
+Qed.
+
+Lemma general_end T i dev : nth_error keys4 i = None ->
+  mc_multicast_egress (mc_set_igmp b (IgGeneral ver T interval (Z.of_nat i))) dev T =
+  Ok (mc_set_igmp b IgInactive, dev, []).
+Proof.
+  intros N. rewrite egress_quiet by exact Hquiet.
+  unfold mc_egress_igmp. cbn [mc_igmp mc_set_igmp mc_groups].
+  assert (T >=? T = true) by lia. rewrite H. rewrite Nat2Z.id.
+  rewrite member4_quiet by apply Hquiet. fold keys4. rewrite N. cbn [obind].
+  unfold mc_egress_mld. cbn [mc_mld mc_set_igmp]. rewrite Hmld. reflexivity.
+Qed.
+
+(* poll exactly when the response machine's timer expires, on a device that accepts frames *)
+Fixpoint mc_drive (k : nat) (st : mstate) : outcome (mstate * list (Z * list mpkt)) :=
+  match k with
+  | O => Ok (st, [])
+  | S k' =>
+      match mc_igmp st with
+      | IgInactive => Ok (st, [])
+      | IgGeneral _ t _ _ | IgSpecific _ t _ =>
+          do '(st1, _, pkts) <- mc_multicast_egress st [true; true] t;
+          do '(st2, l) <- mc_drive k' st1;
+          Ok (st2, (t, pkts) :: l)
+      end
+  end.
+
+(* the expected transcript: one report per group, one interval apart, then a silent poll that
+   switches the machine off *)
+Fixpoint sched (T : Z) (gs : list Z) : list (Z * list mpkt) :=
+  match gs with
+  | [] => [(T, [])]
+  | g :: t => (T, [general_report ver a g]) :: sched (T + interval) t
+  end.
+
+Lemma drive_S k st : mc_drive (S k) st =
+  match mc_igmp st with
+  | IgInactive => Ok (st, [])
+  | IgGeneral _ t _ _ | IgSpecific _ t _ =>
+      do '(st1, _, pkts) <- mc_multicast_egress st [true; true] t;
+      do '(st2, l) <- mc_drive k st1;
+      Ok (st2, (t, pkts) :: l)
+  end.
+Proof. reflexivity. Qed.
+
+Lemma drive_general : forall k i T, length keys4 = (i + k)%nat ->
+  mc_drive (S k) (mc_set_igmp b (IgGeneral ver T interval (Z.of_nat i))) =
+  Ok (mc_set_igmp b IgInactive, sched T (skipn i keys4)).
+Proof.
+  induction k as [|k IH]; intros i T L.
+  - assert (N : nth_error keys4 i = None) by (apply nth_error_None; lia).
+    rewrite drive_S. cbn [mc_igmp mc_set_igmp]. rewrite (general_end T i _ N). cbn [obind mc_drive].
+    rewrite skipn_all2 by lia. reflexivity.
+  - destruct (nth_error keys4 i) as [g|] eqn:N; [|apply nth_error_None in N; lia].
+    rewrite drive_S. cbn [mc_igmp mc_set_igmp]. rewrite (general_step T i g _ N). cbn [obind].
+    rewrite (IH (S i) (T + interval)) by lia. cbn [obind].
+    rewrite (nth_error_skipn keys4 i g N). reflexivity.
+Qed.
+
+Lemma sched_times T gs : Forall (fun e => T <= fst e <= T + Z.of_nat (length gs) * interval) (sched T gs).
+Proof.
+  revert T. induction gs as [|g t IH]; intros T; cbn [sched length].
+  - constructor; [cbn; lia | constructor].
+  - constructor; [cbn; nia|]. eapply Forall_impl; [|apply (IH (T + interval))]. intros e. cbn. nia.
+Qed.
+
+Lemma sched_reports T gs : flat_map snd (sched T gs) = map (general_report ver a) gs.
+Proof. revert T. induction gs as [|g t IH]; intros T; cbn; [reflexivity | rewrite IH; reflexivity]. Qed.
+
+Lemma sched_length T gs : length (sched T gs) = S (length gs).
+Proof. revert T. induction gs as [|g t IH]; intros T; cbn; [reflexivity | rewrite IH; reflexivity]. Qed.
+
+End GeneralQuery.
+
+(* After a general IGMP query, an interface with an IPv4 address and n >= 1 IPv4 groups (none of
+   them being joined or left at that moment), polled whenever the response timer expires on a
+   device that accepts frames, reports every group exactly once, in table order, and its report
+   machine is Inactive again after n + 1 polls; for an IGMPv2 query all of this happens within the
+   query's Max Resp Time (the v1 spacing is 100 ms). *)
+Theorem igmp_general_query_answered b a t0 code :
+  tbl_inv (mc_groups b) -> quiet b -> first_v4 (mc_addrs b) = Some a -> mc_medium b <> M154 ->
+  wipv4_HEADER_LEN + snd wigmp_f_GROUP_ADDRESS <= mc_ip_mtu b -> mc_mld b = MlInactive ->
+  0 <= code -> mc_v4_keys (mc_groups b) <> [] ->
+  let keys4 := mc_v4_keys (mc_groups b) in
+  let n := Z.of_nat (length keys4) in
+  let ver := if code =? 0 then IgmpV1 else IgmpV2 in
+  let mrt := igmp_max_resp_code_to_duration code in
+  let interval := match ver with IgmpV1 => mc_IGMP_V1_INTERVAL | IgmpV2 => mrt / (n + 1) end in
+  let st0 := mc_process_igmp_code b t0 v4_MULTICAST_ALL_SYSTEMS 0 code in
+  exists l,
+    mc_drive (S (length keys4)) st0 = Ok (mc_set_igmp b IgInactive, l) /\
+    flat_map snd l = map (general_report ver a) keys4 /\
+    length l = S (length keys4) /\
+    Forall (fun e => t0 <= fst e <= t0 + (n + 1) * interval) l /\
+    (ver = IgmpV2 -> Forall (fun e => fst e <= t0 + mrt) l).
+Proof.
+  intros Hi Hq Ha Hm Hmtu Hmld Hcode Hne. cbv zeta.
+  remember (mc_v4_keys (mc_groups b)) as keys4 eqn:K. set (n := Z.of_nat (length keys4)).
+  set (ver := if code =? 0 then IgmpV1 else IgmpV2).
+  set (mrt := igmp_max_resp_code_to_duration code).
+  set (interval := match ver with IgmpV1 => mc_IGMP_V1_INTERVAL | IgmpV2 => mrt / (n + 1) end).
+  assert (Hn : 0 < n) by (unfold n; destruct keys4; [contradiction | cbn [length]; lia]).
+  assert (Hmrt : 0 <= mrt).
+  { unfold mrt, igmp_max_resp_code_to_duration. destruct (code <? 128) eqn:C; [lia|].
+    assert (0 <= Z.shiftl (Z.lor (Z.land code 15) 16) (Z.land (Z.shiftr code 4) 7 + 3)).
+    { apply Z.shiftl_nonneg. apply Z.lor_nonneg. split; [apply Z.land_nonneg; lia | lia]. }
+    lia. }
+  assert (Hint : 0 <= interval).
+  { unfold interval. destruct ver; [unfold mc_IGMP_V1_INTERVAL; lia | apply Z.div_pos; lia]. }
+  assert (E0 : mc_process_igmp_code b t0 v4_MULTICAST_ALL_SYSTEMS 0 code =
+               mc_set_igmp b (IgGeneral ver (t0 + interval) interval (Z.of_nat 0))).
+  { unfold mc_process_igmp_code, mc_process_igmp. cbn [v4_is_unspecified].
+    replace (0 =? 0) with true by reflexivity. rewrite Z.eqb_refl. cbn [andb].
+    unfold mc_count_v4. rewrite <- K. fold n.
+    assert (X : negb (n =? 0) = true) by (apply negb_true_iff, Z.eqb_neq; lia). rewrite X.
+    fold ver. fold mrt. reflexivity. }
+  rewrite E0.
+  pose proof (drive_general b a ver interval Hi Hq Ha Hm Hmtu Hmld Hint (length keys4) 0%nat (t0 + interval)) as D.
+  rewrite <- K in D. specialize (D eq_refl).
+  cbn [skipn] in D.
+  exists (sched a ver interval (t0 + interval) keys4). splits.
+  - exact D.
+  - apply sched_reports.
+  - apply sched_length.
+  - eapply Forall_impl; [|apply sched_times; exact Hint]. intros e. cbn. fold n. nia.
+  - intros V. eapply Forall_impl; [|apply sched_times; exact Hint]. intros e. cbn. fold n.
+    unfold interval. rewrite V.
+    assert ((n + 1) * (mrt / (n + 1)) <= mrt) by (apply Z.mul_div_le; lia). nia.
+Qed.
+
+(* ================================================================== examples (non-vacuity) *)
+
+Definition ex_ll1 : Z := 338288524927261089654018896841347694593.     (* fe80::1 *)
+Definition ex_g4 : Z := 3758162435.                                    (* 224.1.2.3 *)
+Definition ex_g6 : Z := v6_LINK_LOCAL_ALL_NODES + 250.                 (* ff02::fb *)
+
+(* Ethernet interface: two addresses, two joins, a poll (three reports: the solicited-node group
+   of fe80::1, the IPv4 group, the IPv6 group), a general IGMPv2 query answered one interval
+   later, a further poll that switches the machine off, a leave and its Leave Group message *)
+Definition ex_events : list mc_event :=
+  [EvAddrAdd (mkCidr (V4 167772161) 24); EvAddrAdd (mkCidr (V6 ex_ll1) 64);
+   EvJoin (V4 ex_g4); EvJoin (V6 ex_g6);
+   EvPoll 0 [true; true; true; true];
+   EvIgmpQuery 1000 v4_MULTICAST_ALL_SYSTEMS 0 100;
+   EvPoll 5001000 [true];
+   EvPoll 10001000 [true];
+   EvLeave (V4 ex_g4);
+   EvPoll 10002000 [true]].
+
+Example mc_example_run :
+  Forall (ev_ok MEth) ex_events /\
+  exists st obs, mc_run (mc_new MEth 1486 1) ex_events = Ok (st, obs) /\
+    map (fun o => length (obs_pkts o)) obs = [0; 0; 0; 0; 3; 0; 1; 0; 0; 1]%nat /\
+    mc_igmp st = IgInactive /\ length (mc_groups st) = 2%nat /\
+    mc_has_multicast_group st (V4 ex_g4) = false /\ mc_has_multicast_group st (V6 ex_g6) = true /\
+    nth 6 obs ONone = OPkts [general_report IgmpV2 167772161 ex_g4].
+Proof.
+  split.
+  - repeat constructor; cbn; try discriminate.
+  - eexists. eexists. split; [vm_compute; reflexivity|]. vm_compute. auto 10.
+Qed.
+
+(* why cfg_ok is a hypothesis: an IPv4 address on an IEEE 802.15.4 interface makes the join report
+   of an IPv4 group reach unreachable!() in lookup_hardware_addr (a configuration error: every
+   IPv4 transmission of such an interface panics there, not only IGMP) *)
+Definition ex_154_v4 : mstate :=
+  mkMc M154 1280 [mkCidr (V4 167772161) 24] [(V4 ex_g4, GJoining)] IgInactive MlInactive 0.
+
+Lemma c03mc_ipv4_on_ieee802154_refuted :
+  tbl_inv (mc_groups ex_154_v4) /\ ~ cfg_ok ex_154_v4 /\ mc_multicast_egress ex_154_v4 [true] 0 = Panic.
+Proof.
+  split; [|split].
+  - unfold tbl_inv. cbn. splits; [repeat constructor; intros [] | repeat constructor | unfold cfg_IFACE_MAX_MULTICAST_GROUP_COUNT; lia].
+  - intros H. specialize (H eq_refl). discriminate.
+  - vm_compute. reflexivity.
+Qed.
+
+(* the hypotheses of igmp_general_query_answered are satisfiable *)
+Definition ex_quiet : mstate :=
+  mkMc MEth 1486 [mkCidr (V4 167772161) 24] [(V4 ex_g4, GJoined); (V4 (ex_g4 + 1), GJoined)] IgInactive MlInactive 0.
+
+Example igmp_general_query_answered_example :
+  (* the hypotheses of the theorem hold for ex_quiet ... *)
+  (tbl_inv (mc_groups ex_quiet) /\ quiet ex_quiet /\ first_v4 (mc_addrs ex_quiet) = Some 167772161 /\
+   mc_medium ex_quiet <> M154 /\ mc_mld ex_quiet = MlInactive) /\
+  (* ... and its conclusion, evaluated: two groups, Max Resp Time 9 s, reports at 3 s and 6 s *)
+  exists l,
+  mc_drive 3 (mc_process_igmp_code ex_quiet 1000 v4_MULTICAST_ALL_SYSTEMS 0 90) = Ok (mc_set_igmp ex_quiet IgInactive, l) /\
+  flat_map snd l = [general_report IgmpV2 167772161 ex_g4; general_report IgmpV2 167772161 (ex_g4 + 1)] /\
+  map fst l = [3001000; 6001000; 9001000].
+Proof.
+  split; [split; [|split; [|split; [|split]]]|].
+  - unfold tbl_inv. cbn. splits; [repeat constructor; cbn; intuition discriminate | repeat constructor | unfold cfg_IFACE_MAX_MULTICAST_GROUP_COUNT; lia].
+  - vm_compute. auto.
+  - reflexivity.
+  - discriminate.
+  - reflexivity.
+  - eexists. split; [vm_compute; reflexivity|]. split; vm_compute; reflexivity.
+Qed.
